@@ -11,17 +11,17 @@ use serde_json::{json, Value};
 use std::io::{BufReader, ErrorKind};
 use std::panic::{catch_unwind, AssertUnwindSafe};
 
-const KINDS: [ErrorKind; 5] = [ErrorKind::Other, ErrorKind::UnexpectedEof, ErrorKind::PermissionDenied, ErrorKind::TimedOut, ErrorKind::WouldBlock];
+/// the five kinds the property names first (indices kept for old replay files), then every other stable
+/// non-transient kind: the contract is about "a non-transient error", whatever its kind
+const KINDS: [ErrorKind; 19] = [
+    ErrorKind::Other, ErrorKind::UnexpectedEof, ErrorKind::PermissionDenied, ErrorKind::TimedOut, ErrorKind::WouldBlock,
+    ErrorKind::InvalidData, ErrorKind::InvalidInput, ErrorKind::NotFound, ErrorKind::BrokenPipe, ErrorKind::ConnectionReset,
+    ErrorKind::ConnectionAborted, ErrorKind::ConnectionRefused, ErrorKind::NotConnected, ErrorKind::AddrInUse, ErrorKind::AddrNotAvailable,
+    ErrorKind::AlreadyExists, ErrorKind::WriteZero, ErrorKind::Unsupported, ErrorKind::OutOfMemory,
+];
 
-fn kind_name(k: ErrorKind) -> &'static str {
-    match k {
-        ErrorKind::Other => "Other",
-        ErrorKind::UnexpectedEof => "UnexpectedEof",
-        ErrorKind::PermissionDenied => "PermissionDenied",
-        ErrorKind::TimedOut => "TimedOut",
-        ErrorKind::WouldBlock => "WouldBlock",
-        _ => "?",
-    }
+fn kind_name(k: ErrorKind) -> String {
+    format!("{k:?}")
 }
 
 #[derive(Clone, Debug)]
@@ -193,7 +193,7 @@ fn offsets_for(len: usize, exhaustive: bool, samples: usize) -> Vec<usize> {
 
 pub fn run(ctx: &mut Ctx) {
     ctx.level = "fault_enumeration";
-    ctx.rule = "fault points are enumerated, not sampled, wherever the tier says so. Reader side: (bundled file, encoding, byte offset k, error kind in {Other, UnexpectedEof, PermissionDenied, TimedOut, WouldBlock}, delivery in {native BufRead, BufReader over Read}); the reader delivers exactly k bytes and then fails - on every later call, or (every other fault point) exactly once, after which it would deliver the rest if asked again. Writer side: (bundled map, output offset, {write returns Err(kind), write returns Ok(0)}), failure of the final flush, and short-write / Interrupted schedules. Plus random Interrupted sequences on reads. Oracle: a non-transient read error makes decode return Err carrying the reader's own error (same kind and payload marker), never a map and never a panic; a write error / Ok(0) / flush error makes encode return Err (same kind and marker; WriteZero for Ok(0)); short writes and Interrupted only -> Ok and a byte stream identical to the fault-free one; Interrupted reads -> the fault-free result. Non-trivial = 0 < k < len (the fault hits in the middle of the stream); distinct by construction (file, encoding, offset, kind, side).".into();
+    ctx.rule = "fault points are enumerated, not sampled, wherever the tier says so. Reader side: (bundled file, encoding, byte offset k, error kind: Other and UnexpectedEof at every offset, the other 17 stable non-transient kinds (PermissionDenied, TimedOut, WouldBlock, InvalidData, InvalidInput, NotFound, BrokenPipe, Connection*, NotConnected, Addr*, AlreadyExists, WriteZero, Unsupported, OutOfMemory) on rotating quarters of the offsets, delivery in {native BufRead, BufReader over Read}); the reader delivers exactly k bytes and then fails - on every later call, or (every other fault point) exactly once, after which it would deliver the rest if asked again. Writer side: (bundled map, output offset, {write returns Err(kind), write returns Ok(0)}), failure of the final flush, and short-write / Interrupted schedules. Plus random Interrupted sequences on reads. Oracle: a non-transient read error makes decode return Err carrying the reader's own error (same kind and payload marker), never a map and never a panic; a write error / Ok(0) / flush error makes encode return Err (same kind and marker; WriteZero for Ok(0)); short writes and Interrupted only -> Ok and a byte stream identical to the fault-free one; Interrupted reads -> the fault-free result. Non-trivial = 0 < k < len (the fault hits in the middle of the stream); distinct by construction (file, encoding, offset, kind, side).".into();
     ctx.assumptions.push("only faults expressible through io::Read / BufRead / Write results are injected".into());
     crate::props::replay_regress_generic(ctx, replay);
     let quick = ctx.tier == Tier::Quick;
